@@ -47,16 +47,29 @@ WITNESSES = {   # 3.8-valid scripts for the listed known findings (re-confirmed 
 
 # every syntactic slot x an assignment expression (3.8 accepts it bare only as a positional call argument), written with
 # parentheses so that the script itself is valid on 3.8
-WALRUS_SLOTS = ["d[{}]", "d[{}:2]", "d[0:{}]", "d[{}, 1]", "{{{}}}", "{{{}, 2}}", "{{1: {}}}", "{{{}: 1}}", "[{}]", "[{}, 2]", "({}, 2)",
-                "f({})", "f(1, {})", "f(k={})", "f(*[{}])", "f(**{{'k': {}}})", "[{} for i in [1]]", "[i for i in [{}]]",
-                "[i for i in [1] if {}]", "{{i: {} for i in [1]}}", "(lambda: {})()", "(lambda a={}: a)()", "{} if 1 else 2",
-                "1 if {} else 2", "1 if 0 else {}", "not {}", "-{}", "{} + 1", "1 + {}", "{} < 2", "1 < {} < 3", "{} and 1", "1 or {}",
-                "f'{{{}}}'", "f'{{1:{{{}}}}}'", "[*[{}]]", "({}).real", "f({})({})", "d[{}][{}]"]
+WALRUS_SLOTS = ["d[@]", "s[@:2]", "s[0:@]", "s[::@]", "d[@, 1]", "t[1:2, @]", "t[@:, 0]", "{@}", "{@, 2}", "{1: @}", "{@: 1}", "[@]",
+                "[@, 2]", "(@, 2)", "(@,)", "f(@)", "f(1, @)", "f(@, k=1)", "f(k=@)", "f(*[@])", "f(*[1], @)", "f(**{'k': @})",
+                "(lambda: @)()", "(lambda a=@: a)()", "@ if 1 else 2", "1 if @ else 2", "1 if 0 else @", "not @", "-@", "@ + 1", "1 + @",
+                "@ < 2", "1 < @ < 3", "@ and 1", "1 or @", "0 or @", "f'{@}'", "f'{1:{@}}'", "[*[@]]", "(@).real", "h(@)(@)", "m[@][@]",
+                "[@][0]",
+                # the element / key / value / condition of EVERY kind of comprehension (an assignment expression in the iterable is
+                # refused by Python itself), and a generator expression in each of its written forms (bare as the only argument of a
+                # call; parenthesised; as one of several arguments)
+                "[@ for i in [1]]", "[i for i in [1] if @]", "[i for i in [1] if i if @]", "sorted({@ for i in [1]})",
+                "sorted({i for i in [1] if @})", "{i: @ for i in [1]}", "{@: 1 for i in [1]}", "{i: 1 for i in [1] if @}",
+                "list(@ for i in [1])", "list((@ for i in [1]))", "f(*(@ for i in [1]))", "f(1, *(i for i in [1] if @))",
+                "list(i for i in [1] if @)", "sum(@ for i in [1, 2])", "[[@ for i in [1]] for j in [1]]"]
 WALRUS_PRELUDE = """
 class _D(dict):
     def __missing__(self, k): return 0
+class _T:
+    def __getitem__(self, k): return k
 d = _D()
+t = _T()
+s = [0, 1, 2, 3]
+m = [[0, 1], [2, 3]]
 def f(*a, **k): return (a, sorted(k.items()))
+def h(a): return lambda b: (a, b)
 """
 
 OL = re.compile(r"__ol_([a-z]+)_[a-z]+")
@@ -159,7 +172,7 @@ def programs(chk):
     for k, w in WITNESSES.items():
         add("known-finding-witnesses", w)
     for slot in WALRUS_SLOTS:
-        add("assignment expression in every slot", WALRUS_PRELUDE + "r = " + slot.replace("{}", "(w := 1)") + "\nprint(ascii(r), w)\n")
+        add("assignment expression in every slot", WALRUS_PRELUDE + "r = " + slot.replace("@", "(w := 1)") + "\nprint(ascii(r), globals().get('w'))\n")
     lits = list(gen_lit.fstrings(2)) + [gen_lit.random_literal(rng, 2) for _ in range(300 if big else 30)]
     rng.shuffle(lits)
     for e in lits[: (400 if big else 40)]:
